@@ -390,6 +390,25 @@ func runC03(r *core.Run) {
 			r.AddEvals(nb * 4)
 			r.NTCount(nb - 1)
 		}
+		// exactly integral components, in and out of range (the corners of the unit cube and their
+		// over-range neighbours: a "corner" fast path that packs integral components shows here)
+		{
+			var nb int64
+			for a := -2; a <= 8; a++ {
+				for b := -2; b <= 8; b++ {
+					for c := -2; c <= 8; c++ {
+						in := [3]float32{float32(a), float32(b), float32(c)}
+						kind, msg, _ := c03Point(s, &p, in)
+						nb++
+						if kind != "" {
+							r.Violate("point", s.Name+"/"+kind+"/integral", msg, c03Case{s.Name, kind, in, nil})
+						}
+					}
+				}
+			}
+			r.AddEvals(nb * 4)
+			r.NTCount(nb)
+		}
 		// successive calls with nearly equal arguments (a result memo keyed too coarsely shows only here)
 		{
 			rg := core.NewRNG(r.Seed, "C03", "neardup", s.Name)
